@@ -129,7 +129,7 @@ def alpha_corpus(props: List[str]) -> List[Dict[str, Any]]:
     from . import alpha
     out: List[Dict[str, Any]] = []
     base = Repo()
-    gen_cache: Dict[Tuple[str, bool], List[Tuple[str, str]]] = {}
+    gen_cache: Dict[Any, List[Tuple[str, str]]] = {}
     for p in props:
         class Rec(Repo):
             def src(self, rel: str) -> str:
@@ -158,6 +158,16 @@ def alpha_corpus(props: List[str]) -> List[Dict[str, Any]]:
                 for q, new in gen_cache[key]:
                     out.append(dict(prop=p, name=f'ALPHA {rel.split("/")[-1]}:{q}' + (' (parameters)' if params else ''), rel=rel, old='', new='', expect=None,
                                     count=1, also=[], overlay={rel: new}))
+            # comparisons turned round, if / else inverted, conditions named (python: all three plus the renames in one variant)
+            key2 = (rel, 'rewrite')
+            if key2 not in gen_cache:
+                try:
+                    text = base.src(rel)
+                    gen_cache[key2] = (alpha.py_rewrites(rel, text, 'all') if rel.endswith('.py') else alpha.c_rewrites(rel, text, 'flip') if rel.endswith('.c') else [])
+                except Exception:      # noqa: BLE001
+                    gen_cache[key2] = []
+            for q, new in gen_cache[key2]:
+                out.append(dict(prop=p, name=f'REWRITE {rel.split("/")[-1]}:{q}', rel=rel, old='', new='', expect=None, count=1, also=[], overlay={rel: new}))
     return out
 
 
